@@ -21,20 +21,18 @@ ReadsOK(pr, c, o) ==
     IN ReadAllowed(pr, c, o, p, [res |-> r.res, msg |-> r.msg])
 
 Why(pr, c, o) ==
-  LET badr == {i \in 1..Len(o.reads) :
-                 ~ReadAllowed(pr, c, o, [pr |-> pr, k |-> o.reads[i].k, f |-> o.reads[i].f, a |-> o.reads[i].a],
-                              [res |-> o.reads[i].res, msg |-> o.reads[i].msg])}
-      i == CHOOSE x \in badr : TRUE
-      r == o.reads[i]
-      org == MintOrigin(pr, c, o)
+  LET P(r) == [pr |-> pr, k |-> r.k, f |-> r.f, a |-> r.a]
+      badr == {i \in 1..Len(o.reads) : ~ReadAllowed(pr, c, o, P(o.reads[i]), [res |-> o.reads[i].res, msg |-> o.reads[i].msg])}
+      R == {o.reads[i] : i \in badr}
+      matching(r) == FB(r.f) = FB(c.f) /\ r.k = o.k /\ (HasAssertion(pr[1]) => AB(r.a) = AB(c.a))
   IN IF o.res # "ok" THEN "C01 C02 mint failed"
-     ELSE IF r.res = "ok" /\ r.k # o.k THEN "C04 minted token accepted under another key"
-     ELSE IF r.res = "ok" /\ FB(r.f) # FB(c.f) THEN "C05 minted token accepted under another footer"
-     ELSE IF r.res = "ok" /\ HasAssertion(pr[1]) /\ AB(r.a) # AB(c.a) THEN "C06 minted token accepted under another assertion"
-     ELSE IF r.res = "ok" THEN "C01 C02 minted token returns another message"
-     ELSE IF FB(r.f) = FB(c.f) /\ AB(r.a) = AB(c.a) /\ r.k = o.k
-          THEN "C01 C02 C05 C06 minted token is not accepted under the values set on the builder object"
-     ELSE "C01 C02 unexpected outcome class"
+     ELSE (IF \E r \in R : r.res = "ok" /\ r.k # o.k THEN "C04 accepted under another key; " ELSE "")
+       \o (IF \E r \in R : r.res = "ok" /\ FB(r.f) # FB(c.f) THEN "C05 accepted under another footer; " ELSE "")
+       \o (IF \E r \in R : r.res = "ok" /\ HasAssertion(pr[1]) /\ AB(r.a) # AB(c.a) THEN "C06 accepted under another assertion; " ELSE "")
+       \o (IF \E r \in R : r.res = "ok" /\ matching(r) THEN "C01 C02 returns another message; " ELSE "")
+       \o (IF \E r \in R : r.res # "ok" /\ matching(r)
+            THEN "C01 C02 C05 C06 the minted token is not accepted under the values set on the builder object; " ELSE "")
+       \o (IF \E r \in R : r.res \notin {"ok", "pre"} THEN "C03 C09 unexpected outcome class; " ELSE "")
 
 RECURSIVE Walk(_, _, _, _)
 Walk(pr, c, ops, i) ==
